@@ -215,7 +215,7 @@ static void factor_and_check(int which)
 void forced_pivot_enum(void);
 void prop_C02(void) { if (!strcmp(P_str("mode", "case"), "forced_enum")) forced_pivot_enum(); factor_and_check(2); }
 void prop_C09(void) { factor_and_check(9); }
-void prop_C03(void) { factor_and_check(3); }
+void prop_C03(void) { g_mon_i3_strict = 1; factor_and_check(3); }
 void prop_C04(void) { g_mon_strict_info = 0; factor_and_check(4); }
 
 /* ------------------------------------------------------------------ C05: memory safety / slot bound / diagnosed overflow */
